@@ -9,6 +9,7 @@ import (
 	iradix "github.com/hashicorp/go-immutable-radix"
 	"github.com/jacobsa/fuse/fuseops"
 	"github.com/jacobsa/fuse/fuseutil"
+	"github.com/spf13/afero"
 )
 
 // Hooks for the verification harness (mutable file system). Nothing here changes behaviour:
@@ -17,6 +18,12 @@ import (
 
 // VerifFS exposes the operation object that jacobsa/fuse would serve.
 func (dfs *MutableFS) VerifFS() fuseutil.FileSystem { return dfs.fsInternal }
+
+// VerifWrapStaging replaces the staging file system by wrap(staging): the harness shapes the
+// schedule of concurrent operations by holding chosen calls on the backing files.
+func (dfs *MutableFS) VerifWrapStaging(wrap func(afero.Fs) afero.Fs) {
+	dfs.fsInternal.localCache = wrap(dfs.fsInternal.localCache)
+}
 
 // VerifFirstINode is the value the inode generator starts from.
 const VerifFirstINode = uint64(firstINode)
